@@ -1,7 +1,6 @@
 package props
 
 import (
-	"io"
 	"crypto/tls"
 	"fmt"
 	"net"
@@ -194,8 +193,14 @@ func runC13(t *testing.T, e *worlds.Env, tier string) (bool, any) {
 			lk()
 			teeTermBranches[me] = true
 			ulk()
-			_, _ = io.Copy(io.Discard, cx)
-			return nil
+			buf := make([]byte, 512)
+			for {
+				e.S.Park("branchZ")
+				if _, err := cx.Read(buf); err != nil {
+					e.S.Park("branchZ.end")
+					return nil
+				}
+			}
 		})
 		earlyZ := layer4.NextHandlerFunc(func(cx *layer4.Connection, _ layer4.Handler) error {
 			_, _ = cx.Read(make([]byte, 1))
